@@ -73,6 +73,7 @@ def showEv : Ev → String
   | .tEnd tb ta acc a q => s!"TE({showList tb}|{showList ta}|{showB acc}|{showList a}|{q})"
   | .mq m => s!"MQ({showMut m})"
   | .qEnd => "QE"
+  | .nested r q res => s!"N({showKind r.kind}:{showList r.states}:{showB r.hasArgs}|{q}|{showRes res})"
   | .errInternal => "EI"
 
 structure DState where
